@@ -352,7 +352,8 @@ def c05(res):
             res.violation("panic_swallowed/%s" % r["cfg"]["strategy"], dict(check="panic_surfaces", graph_id=g["id"], cfg=r["cfg"], done=r["done"]))
     # ... and the other workers stop too (within their current block): two long chains, one worker each after the first
     # block; the owner of the odd chain panics, the evaluations begun after that are counted by the model
-    PP, LB = 2500, 40000
+    # (chains no longer than needed: a DFS path costs O(depth) per step, and three workers do not share two jobs)
+    PP, LB = 2500, 15000
     tc = dict(id="F4-twochains", family="twochains", n=2 * (PP + LB), init=[1, 2], succ=[], inb=[], params=[], poison=2 * PP + 1, rep=[],
               props=big_props(rng))
 
@@ -363,7 +364,7 @@ def c05(res):
     for r in runs3:
         if r["done"]["joined"] and not r["done"]["join_panicked"]:
             res.violation("panic_swallowed/%s" % r["cfg"]["strategy"], dict(check="panic_surfaces", graph_id=tc["id"], cfg=r["cfg"], done=r["done"]))
-    res.notes.append("two chains, panic in one owner: evaluations begun after the panic per run = %s (bound: threads x 1500 + 8000)" % (
+    res.notes.append("two chains, panic in one owner: evaluations begun after the panic per run = %s (bound: threads x 1500 + 3000)" % (
         sorted(r["done"].get("evals_after_poison", -1) for r in runs3)))
     allcov = sorted(set(tuple(c) for c in cov + cov2 + cov3))
     res.extra["protocol_steps_covered_by_real_traces"] = ["%s:%s" % c for c in allcov]
